@@ -60,6 +60,14 @@ CheckSimplifyPoly(e) ==
   ELSE IF ~RingsMatch(e.rings, e.keptrings, 1, 1, e.tn, e.td) THEN "simplify-polygon-contract"
   ELSE "ok"
 
+\* Densify of any geometry: element by element (LineString members and polygon rings in Dump order; a Point is an
+\* element of one vertex, which Densify leaves alone)
+CheckDensifyAny(e) ==
+  IF ~e.ctsame THEN "densify-structure"
+  ELSE IF Len(e.rings) # Len(e.keptrings) THEN "densify-structure"
+  ELSE IF \E i \in 1..Len(e.rings) : Len(e.rings[i]) >= 1 /\ ~DensifyOK(e.rings[i], e.keptrings[i], e.dn, e.dd) THEN "densify-contract"
+  ELSE IF \E i \in 1..Len(e.rings) : Len(e.rings[i]) = 0 /\ Len(e.keptrings[i]) # 0 THEN "densify-contract"
+  ELSE "ok"
 CheckDensify(e) ==
   IF ~DensifyOK(e.line, e.dense, e.dn, e.dd) THEN "densify-contract"
   ELSE IF e.ctsame # TRUE THEN "densify-coordinate-type" ELSE "ok"
@@ -91,6 +99,7 @@ Check(e) ==
          [] e.kind = "simplify" -> CheckSimplify(e)
          [] e.kind = "simplifypoly" -> CheckSimplifyPoly(e)
          [] e.kind = "densify" -> CheckDensify(e)
+         [] e.kind = "densifyany" -> CheckDensifyAny(e)
          [] e.kind = "snap" -> CheckSnap(e)
          [] e.kind = "snapdec" -> CheckSnapDec(e)
          [] e.kind = "orient" -> CheckOrient(e)
